@@ -66,6 +66,24 @@ def verify(mdir):
         imp = sh([PY, "-c", "import trie; print(trie.__file__)"], cwd=wt)[1].strip()
         ok = passes(wt)
         missing = sorted(base - ok)
+        if missing:
+            # hypothesis deadlines make a few tests flaky when the machine is loaded: a test that fails in the full run is run
+            # again on its own (twice) and counts as broken only if it fails there too
+            still = []
+            for t in missing:
+                mod, _, name = t.partition("::")
+                node = mod.replace(".", "/") + ".py::" + name
+                good = False
+                for _ in range(2):
+                    rc_t, _o = sh([PY, "-m", "pytest", "-q", "-p", "no:cacheprovider", "--timeout=900", node], cwd=wt, timeout=1800)
+                    if rc_t == 0:
+                        good = True
+                        break
+                if not good:
+                    still.append(t)
+            if len(still) < len(missing):
+                print("  flaky under load (passed when run alone):", sorted(set(missing) - set(still))[:5])
+            missing = still
         print("demo clean rc=%d, demo patched rc=%d, import %s, baseline tests passing %d/%d" % (rc0, rc1, imp, len(base & ok), len(base)))
         if missing:
             print("  tests broken by the patch:", missing[:5])
